@@ -303,10 +303,12 @@ class Project:
             cache_cfg = None
         elif cache_mode == "abs":
             self.cache = os.path.join(base, "abscache")
+            os.makedirs(self.cache)
             cache_cfg = self.cache
         else:  # shm: different device
             self.shm = tempfile.mkdtemp(prefix="verif.", dir="/dev/shm")
             self.cache = os.path.join(self.shm, "cache")
+            os.makedirs(self.cache)
             cache_cfg = self.cache
         rc, so, se = self.dud(["init"], cwd=self.root)
         if rc != 0:
@@ -553,10 +555,17 @@ class Project:
             path = self.abspath(sp)
             try:
                 raw = open(path, "rb").read()
+            except Exception as e:
+                out.append("s %s MISSING" % hx(sp))
+                docs[sp] = None
+                continue
+            try:
                 doc = yaml.safe_load(raw) or {}
+                if not isinstance(doc, dict):
+                    raise ValueError("not a mapping")
             except Exception as e:
                 out.append("s %s UNREADABLE" % hx(sp))
-                docs[sp] = None
+                docs[sp] = (raw, None)
                 continue
             docs[sp] = (raw, doc)
             toks = ["s", hx(sp), doc.get("checksum") or "-"]
